@@ -89,6 +89,7 @@ where
 
     let mut r#match = None;
     let mut len = 0;
+    let start = dst.len();
 
     loop {
         let src = reader.fill_buf()?;
@@ -112,7 +113,7 @@ where
 
     let is_eol = matches!(r#match, Some(LINE_FEED));
 
-    if is_eol && dst.ends_with(&[CARRIAGE_RETURN]) {
+    if is_eol && dst[start..].ends_with(&[CARRIAGE_RETURN]) {
         dst.pop();
     }
 
